@@ -135,43 +135,89 @@ let chunk_bytes (c : Bounded.chunk) (maxn : int) : string =
 let elf_forbidden = "!err=file_#0:_Cannot_read_ELF_ !err=file_#0:_Invalid_ELF_ !err=file_#0:_No_content " ^
                     "!err=file_#0:_Too_many_ !err=file_#0:_Unsupported_ELF_"
 
-let predict_elf (f : BinNums.coq_N -> BinNums.coq_N) : string option =
-  match ElfModel.elf_probe alim f with
-  | Bounded.Err (Bounded.KNOPROBE, _) -> None
+let elf_ok_tokens (r : ElfModel.elf_result) : string =
+  (* ERASEINFO: the descriptor of the last such note of the first walk, if the open succeeds *)
+  let erase = ref None and unknown = ref false in
+  Stdlib.List.iter (fun n ->
+    match NotesModel.noarch_note n with
+    | Bounded.Ok NotesModel.NaEraseinfo -> erase := Some n.NotesModel.n_desc
+    | Bounded.Ok _ -> ()
+    | _ -> unknown := true) r.ElfModel.er_notes;
+  let t = r.ElfModel.er_tables in
+  let has_strtab = (match t.ElfModel.et_strtab with Some _ -> true | None -> false) in
+  let e = if !unknown then " MODEL-OOB-IN-NOTE-NAME"
+    else if has_strtab then ""
+    else (match !erase with
+      | Some c -> Printf.sprintf " ?open=OK:erase=%x:%s" (int_of_n c.Bounded.clen) (chunk_bytes c 64)
+      | None -> " ?open=OK:!erase=") in
+  elf_forbidden ^ (if has_strtab then "" else " ?open=OK:fmt=elf") ^ e
+
+(* message prefix (after "file #0: ") for the stages of the other probes *)
+let other_msg (stg : Bounded.stage) : string option =
+  match stg with
+  | Bounded.StFlatRead pos -> Some (Printf.sprintf "Cannot rearrange file #0: Cannot read flattened header at %s" (dec_n pos))
+  | Bounded.StFlatOffset pos -> Some "Cannot rearrange file #0: Wrong flattened offset"
+  | Bounded.StFlatSize pos -> Some "Cannot rearrange file #0: Wrong flattened segment size"
+  | Bounded.StFlatType -> Some "Unknown flattened type:"
+  | Bounded.StFlatVersion -> Some "Unknown flattened version:"
+  | Bounded.StSubHdr -> Some "file #0: Invalid sub-header size"
+  | Bounded.StOther n ->
+      (match int_of_n n with
+       | 0 -> Some "Unknown file format"
+       | 1 -> Some "Invalid diskdump header content"
+       | 2 -> Some "file #0: Invalid header version"
+       | 10 -> None
+       | 11 -> Some "Unsupported LKCD version:"
+       | 20 -> Some "End marker not found"
+       | 21 -> Some "Unsupported dump architecture:"
+       | 22 -> Some "Cannot read end marker at"
+       | _ -> None)
+  | Bounded.StPageSize _ -> Some "Invalid page s"
+  | _ -> stage_msg stg
+
+let predict_open (f : BinNums.coq_N -> BinNums.coq_N) (flen : int) : string =
+  match ProbeModel.open_dump true alim f (n_of_int flen) with
+  | Bounded.Err (Bounded.KNOPROBE, _) -> "P MODEL-NOPROBE-ESCAPED"
   | Bounded.Err (st, stg) ->
-      let m = (match stage_msg stg with Some m -> " err=file_#0:_" ^ us m ^ "*" | None -> "") in
-      Some ("P open=" ^ status_name st ^ m)
-  | Bounded.Ok r ->
-      (* ERASEINFO: the descriptor of the last such note of the first walk, if the open succeeds *)
-      let erase = ref None and unknown = ref false in
-      Stdlib.List.iter (fun n ->
-        match NotesModel.noarch_note n with
-        | Bounded.Ok NotesModel.NaEraseinfo -> erase := Some n.NotesModel.n_desc
-        | Bounded.Ok _ -> ()
-        | _ -> unknown := true) r.ElfModel.er_notes;
-      let t = r.ElfModel.er_tables in
-      let has_strtab = (match t.ElfModel.et_strtab with Some _ -> true | None -> false) in
-      let e = if !unknown then " MODEL-OOB-IN-NOTE-NAME"
-        else if has_strtab then ""
-        else (match !erase with
-          | Some c -> Printf.sprintf " ?open=OK:erase=%x:%s" (int_of_n c.Bounded.clen) (chunk_bytes c 64)
-          | None -> " ?open=OK:!erase=") in
-      Some ("P " ^ elf_forbidden ^ e)
-  | r -> Some ("P " ^ ub_name r)
+      let m = (match other_msg stg with Some m -> " err=file_#0:_" ^ us m ^ "*" | None -> "") in
+      "P open=" ^ status_name st ^ m
+  | Bounded.Ok (ProbeModel.OiFlat _) -> "P !err=file_#0:_Cannot_rearrange !err=file_#0:_Unknown_flattened"
+  | Bounded.Ok (ProbeModel.OiProbe p) ->
+      (match p with
+       | ProbeModel.PoElf r -> "P " ^ elf_ok_tokens r
+       | ProbeModel.PoDiskdump (_, _, l) ->
+           Printf.sprintf "P ?open=OK:fmt=diskdump ?open=OK:ps=OK:%s"
+             (hex_of_n l.SizesModel.dl_bs)
+       | ProbeModel.PoLkcd (_, ps) -> Printf.sprintf "P open=OK fmt=lkcd ps=OK:%s" (hex_of_n ps)
+       | ProbeModel.PoS390 ps -> Printf.sprintf "P open=OK fmt=s390dump ps=OK:%s" (hex_of_n ps)
+       | ProbeModel.PoBeyond -> "P ?")
+  | r -> "P " ^ ub_name r
 
 let predict_file (specs : string list) : string =
   match specs with
   | [spec] ->
-      let f = file_of_bytes (build_spec spec) in
-      (* a flattened file is rearranged first: not predicted here *)
-      (match predict_elf f with Some p -> p | None -> "P ?")
+      let b = build_spec spec in
+      predict_open (file_of_bytes b) (Bytes.length b)
   | _ -> "P ?"
+
+(* ---- white-box cases on the size logic (no file needed):
+     S ps <v>                      set_page_size
+     L <ps> <comp> <flags> <hex>   lkcd_page on a payload  *)
+let sizes_case (ws : string list) : string =
+  match ws with
+  | ["S"; "ps"; v] ->
+      (match SizesModel.set_page_size true (n_of_hex v) with
+       | Bounded.Ok (ps, sh) -> Printf.sprintf "S ok %s %s" (hex_of_n ps) (hex_of_n sh)
+       | Bounded.Err (st, _) -> "S " ^ status_name st
+       | r -> "S " ^ ub_name r)
+  | _ -> "SKIP"
 
 let run_case (line : string) : string =
   match words line with
   | ["R"; cap; src] -> rle_line cap src
   | ["R"; cap] -> rle_line cap "-"
   | "F" :: _opts :: specs -> predict_file specs
+  | "S" :: _ -> sizes_case (words line)
   | _ -> "SKIP"
 
 (* implementation judged by the spec: "R cap src | R ret len buf" *)
